@@ -742,6 +742,6 @@ def run(ctx):
     from . import c09
     borrow(ctx, "C10", c09.rule_complete, tu)
     from .. import lints
-    lints.run(ctx, "C10", ctx.py, ["librdengine"])
+    lints.run(ctx, "C10", ctx.py, ["librdengine", "engine_collection", "simulate"])
     ctx.assume("completion after ceil(t_max/dt) steps and absence of hangs in general are value-level and not "
                "decided; the Python driver loop ends only when the engine reports completion")
